@@ -168,6 +168,12 @@ namespace Scalibr.Pom
 without placeholders. -/
 theorem C13_pom_props_total (s1 s2 : Str) : gen s1 s2 ≠ .panic := gen_total s1 s2
 
+/-- … and the model's recursion bound (`s1.length + 1`) is adequate: `gen` never answers "out of fuel", so "no" is
+always the Go function's `false`, not an artefact of the bound.  (Every Go slice expression of the function is the
+checked `slice` of the model, so `.panic` is a reachable outcome of `aux` in principle — the three pre-3277e05b
+shapes produced it — and the totality theorem is not true by construction.) -/
+theorem C13_pom_props_fuel_adequate (s1 s2 : Str) : gen s1 s2 ≠ .fuel := gen_fuel s1 s2
+
 /-- Soundness of the returned patch map, full strength (fix d4dd80ce): whenever `generatePropertyPatches`
 answers with a map, interpolating the old requirement string with that map gives exactly the requested
 version — for all strings, repeated placeholder names included — and no name was assigned two values. -/
@@ -327,9 +333,16 @@ would need `write values ts = ts` for every token list.  FALSE for the unchanged
 
 /-- `writeString` is the identity on every element in which each addressed child already holds exactly
 its value (`<version>1.0</version>`, or an empty element for the empty value) — whatever else the element
-contains: comments, nested elements, attributes, other children, in any number. -/
+contains: comments, nested elements, attributes, other children, in any number.
+Scope (audit): this is ONE `writeString` call with an arbitrary `values` map — what the writer does to one
+`<dependency>` / `<parent>` / `<properties>` element; the dispatch that finds those elements in a file
+(`write` / `writeProject` / `writeDependency`) is not modelled, so there is no file-level token theorem. -/
 theorem C13_pom_tokens_identity_partial (values : Str → Option Str) (ts : List Tok)
     (hs : simple values ts = true) : write values ts = ts := write_simple values ts hs
+
+/-- adequacy of `write`'s loop bound: more fuel changes nothing -/
+theorem C13_pom_tokens_fuel_adequate (values : Str → Option Str) (ts : List Tok) (f : Nat) (hf : ts.length < f) :
+    writeString values f ts = write values ts := writeString_fuel values f _ ts hf (by omega)
 
 /-- `<dependency><version><!--c-->1.0</version></dependency>` rewritten with its own version: the comment is lost. -/
 theorem C13_pom_tokens_comment_witness :
